@@ -360,9 +360,49 @@ func hostCall(pooled bool) *ugo.Function {
 	}}
 }
 
+// hostSeq is the Go function behind cbseq / cbseq2: one Invoker, acquired once (or not pooled),
+// invokes the function once per argument list; a returned error is collected as a value.
+func hostSeq(pooled bool) *ugo.Function {
+	return &ugo.Function{Name: "cbseq", ValueEx: func(c ugo.Call) (ugo.Object, error) {
+		if c.Len() != 2 {
+			return nil, ugo.ErrWrongNumArguments.NewError("want=2")
+		}
+		lists, ok := c.Get(1).(ugo.Array)
+		if !ok {
+			return nil, ugo.ErrWrongNumArguments.NewError("want array")
+		}
+		inv := ugo.NewInvoker(c.VM(), c.Get(0))
+		if pooled {
+			inv.Acquire()
+			defer inv.Release()
+		}
+		out := ugo.Array{}
+		for _, l := range lists {
+			args, _ := l.(ugo.Array)
+			ret, err := inv.Invoke(args...)
+			if err != nil {
+				if o, ok := err.(ugo.Object); ok {
+					out = append(out, o)
+				} else {
+					out = append(out, &ugo.Error{Name: "goerr", Message: err.Error()})
+				}
+				continue
+			}
+			out = append(out, ret)
+		}
+		return out, nil
+	}}
+}
+
 func semValueObj(v N) ugo.Object {
 	switch v["t"] {
 	case "bi":
+		switch v["n"] {
+		case "cbseq":
+			return hostSeq(true)
+		case "cbseq2":
+			return hostSeq(false)
+		}
 		return hostCall(v["n"] == "cbcall")
 	case "int":
 		return ugo.Int(int64(v["v"].(float64)))
@@ -385,7 +425,7 @@ func semExpected(e semExp) string {
 	g := N{}
 	if m, ok := e.Globals.(map[string]any); ok {
 		for k, v := range m {
-			if k != "cbcall" && k != "cbcall2" {
+			if !strings.HasPrefix(k, "cb") {
 				g[k] = v
 			}
 		}
@@ -526,7 +566,7 @@ func semRun(p semProg, cf semCfg, src string) (obs string, compileErr error, pan
 	logv := semObj(g["log"]).(N)["v"]
 	gl := N{}
 	for k, v := range g {
-		if k != "log" && k != "cbcall" && k != "cbcall2" {
+		if k != "log" && !strings.HasPrefix(k, "cb") {
 			gl[k] = semObj(v)
 		}
 	}
